@@ -109,7 +109,7 @@ def r_recursion(ctx):
     rid = "C05.recursion"
     ctx.rule(rid, "every cycle of the crate-local call graph (free functions and self methods, all cfg) that contains a function "
                   "performing a rule lookup (iterates `.rules` or calls a lookup helper) also contains a function that consults a "
-                  "visited/active set; cycles without lookups are structural descents over a finite tree", floor=30)
+                  "visited/active set; cycles without lookups are structural descents over a finite tree", floor=8)
     g = cgmod.CG(ctx.facts)
     direct = {id(fi) for fi in g.fns if has_lookup(fi)}
     guarded = {id(fi) for fi in g.fns if fn_text_tokens(fi) & set(GUARD_TOKENS)}
